@@ -77,7 +77,7 @@ def run_case(case, drv):
         impl = (core.err_kind(e), repr(e))
     rep = drv.ask(f"q2i {fmat(M, r, c)} {fs(const)}")
     head, groups = core.split_reply(rep)
-    if head != impl[0]:
+    if core.err_class(head) != core.err_class(impl[0]):      # (that it raises, not which exception)
         res.disagree("QUBO_to_Ising status", impl[0] + (": " + impl[1] if impl[0] != "ok" else ""), head)
         if case["mode"] == "square" and impl[0] != "ok":
             res.fail("q2i:raises", f"QUBO_to_Ising raised on a square {r}x{c} {kind} input: {impl[1]}")
@@ -123,10 +123,8 @@ def run_case(case, drv):
         try:
             qt.Ising_to_QUBO(Jobj, np.array([float(x) for x in h]), float(const))
             res.fail("i2q:nonsquare-accepted", f"Ising_to_QUBO accepted a {r}x{c} matrix")
-        except ValueError:
+        except Exception:  # noqa  (rejected: which exception is not part of the property)
             pass
-        except Exception as e:  # noqa
-            res.disagree("Ising_to_QUBO status", core.err_kind(e), "err:value")
         return res
 
     # ---------------- a linear-term vector of the wrong length is rejected (model and code)
@@ -139,7 +137,7 @@ def run_case(case, drv):
         except Exception as e:  # noqa
             impl_bad = core.err_kind(e)
         rep_bad = drv.ask(f"i2q {fmat(M, r, c)} {fl(hbad)} {fs(const)}").split()[0]
-        if impl_bad != rep_bad:
+        if core.err_class(impl_bad) != core.err_class(rep_bad):
             res.disagree(f"Ising_to_QUBO with len(h)={len(hbad)} for n={r}", impl_bad, rep_bad)
         if impl_bad == "ok":
             res.fail("i2q:length-mismatch-accepted", f"Ising_to_QUBO accepted h of length {len(hbad)} for a {r}x{r} matrix")
@@ -155,7 +153,7 @@ def run_case(case, drv):
         res.fail("i2q:raises", f"Ising_to_QUBO raised on a square {kind} input: {e!r}")
     rep = drv.ask(f"i2q {fmat(M, r, c)} {fl(h)} {fs(const)}")
     head, groups = core.split_reply(rep)
-    if head != impl[0]:
+    if core.err_class(head) != core.err_class(impl[0]):
         res.disagree("Ising_to_QUBO status", impl[0], head)
     elif head == "ok":
         mQ = [[Fraction(t) for t in groups[0][i * r:(i + 1) * r]] for i in range(r)]
